@@ -92,6 +92,7 @@ class Network:
         self.observers = []  # callables(entry) called after completion
         self._next_port = 20000
         self.connections = []  # (netloc, ssl_context) of every connection object created by a loop-back client
+        self.async_delay = None  # callable(netloc, path, data) -> seconds: the async client's transfer suspends that long
 
     def new_server(self, host='127.0.0.1', scheme='http', **kw) -> FakeHttpServer:
         with self.lock:
@@ -246,14 +247,30 @@ def mk_soap_client_class(network: Network):
 
 
 class _FakeAioResponse:
-    def __init__(self, entry):
-        self.status, self.reason = entry.status, entry.reason
-        self._body = entry.response or b''
+    """async context manager returned by ``session.post``; the transmission happens when it is entered, after the optional delay
+    the network dictates for this message (``Network.async_delay`` - a transfer that really suspends, like a slow link)."""
+
+    def __init__(self, session, path, data, headers):
+        self.session, self.path, self.data, self.headers = session, path, data, headers
+        self.status = self.reason = None
+        self._body = b''
 
     async def text(self):
         return self._body.decode('utf-8')
 
     async def __aenter__(self):
+        net = self.session.network
+        if net.async_delay is not None:
+            delay = net.async_delay(self.session.netloc, self.path, self.data)
+            if delay:
+                import asyncio
+                await asyncio.sleep(delay)
+        server = net.servers.get(self.session.netloc)
+        if server is not None and (self.session.ssl_context is not None) != (server.scheme == 'https'):
+            raise ConnectionResetError('loop-back: TLS / plaintext mismatch')
+        entry = net.transmit(self.session.netloc, 'POST', self.path, self.headers or {}, self.data or b'')
+        self.status, self.reason = entry.status, entry.reason
+        self._body = entry.response or b''
         return self
 
     async def __aexit__(self, *a):
@@ -266,11 +283,7 @@ class _FakeAioSession:
         network.connections.append((netloc, ssl_context))
 
     def post(self, path, data=None, headers=None):
-        server = self.network.servers.get(self.netloc)
-        if server is not None and (self.ssl_context is not None) != (server.scheme == 'https'):
-            raise ConnectionResetError('loop-back: TLS / plaintext mismatch')
-        entry = self.network.transmit(self.netloc, 'POST', path, headers or {}, data or b'')
-        return _FakeAioResponse(entry)
+        return _FakeAioResponse(self, path, data, headers)
 
     async def close(self):
         pass
